@@ -105,9 +105,18 @@ def call(two_d, name, xs, y, kw, stack=False, iface='class', module=None):
         return ('exc', type(e).__name__, str(e)[:100])
 
 
-def build_case(ctx, rng, two_d, name, entry, n, want_weights, mi_choice):
+def build_case(ctx, rng, two_d, name, entry, n, want_weights, mi_choice, kw_override=None):
     kw = M.filter_kwargs(entry, M.call_kwargs(name, two_d))
     params = entry['params']
+    if kw_override is not None:
+        kw = dict(kw_override)
+        ctx.count('kwargs:single-variant')
+    elif rng.random() < 0.45:
+        # a non-default parameter value (optional code paths: smoothing, Whittaker interpolation of a mask, other orders ...)
+        vs = M.variants(name, entry, two_d, rng, 1, base=kw)
+        if vs:
+            kw = vs[0]
+            ctx.count('kwargs:variant')
     if 'max_iter' in params and mi_choice is not None:
         kw['max_iter'] = mi_choice
     pp = {}  # per-point kwargs (sorted order)
@@ -126,9 +135,9 @@ def build_case(ctx, rng, two_d, name, entry, n, want_weights, mi_choice):
     return kw, pp, ((x, z) if two_d else (x,)), y, shape
 
 
-def run_case(ctx, rng, two_d, name, entry, n, pkind, axes, want_weights, mi_choice, iface='class'):
+def run_case(ctx, rng, two_d, name, entry, n, pkind, axes, want_weights, mi_choice, iface='class', kw_override=None):
     """returns list of Disagreement"""
-    kw, pp, xs, y, shape = build_case(ctx, rng, two_d, name, entry, n, want_weights, mi_choice)
+    kw, pp, xs, y, shape = build_case(ctx, rng, two_d, name, entry, n, want_weights, mi_choice, kw_override)
     stack = name == 'collab_pls'
     perms = []
     for ax, xv in enumerate(xs):
@@ -272,6 +281,18 @@ def cases(ctx):
                     mi = mi_opts[int(rng.integers(0, len(mi_opts)))]
                     shape = (int(rng.choice([12, 14, 17])), int(rng.choice([11, 13, 16])))
                     plan.append((True, name, e, shape, kinds[int(rng.integers(0, 4))], axes, ww, mi))
+    # every method with each single parameter moved to a non-default value (optional code paths), one permutation each
+    for two_d, reg in ((False, reg1), (True, reg2)):
+        for name, e in reg.items():
+            svs = M.single_variants(name, e, two_d)
+            if not ctx.thorough and len(svs) > 10:
+                svs = [svs[i] for i in sorted(rng.choice(len(svs), 10, replace=False))]
+            for kwv in svs:
+                pk = ['random', 'rotate', 'reverse'][int(rng.integers(0, 3))] if 'reverse' in kinds else ['random', 'rotate'][int(rng.integers(0, 2))]
+                if two_d:
+                    plan.append((True, name, e, (12, 11), pk, [(0,), (1,), (0, 1)][int(rng.integers(0, 3))], False, None, 'class', kwv))
+                else:
+                    plan.append((False, name, e, int(rng.choice([25, 40])), pk, (0,), False, None, 'class', kwv))
     return rng, plan
 
 
